@@ -62,7 +62,7 @@ add('C07', ['C07Block', 'C07', 'C07X'], PIPE + ['corr.normalize', 'corr.pipeline
 add('C08', ['C08Block', 'C08Inline', 'C08', 'C08Src'], PIPE,
     'Lean 4 locality proofs on the block model (processors never look past blocks[0]; the parent is read only through its last child) and stash-counter independence of the inline model',
     'PARTIAL: as far as Props/C08*.lean state; the composition of both halves rests on correspondence where not proved.')
-add('C09', ['C09', 'C09Doc', 'C09X'], ['corr.normalize', 'corr.pipeline', 'corr.pipelinex'],
+add('C09', ['C09', 'C09Doc', 'C09X', 'C09XCode'], ['corr.normalize', 'corr.pipeline', 'corr.pipelinex'],
     'Lean 4 proofs about the model of NormalizeWhitespace (line endings, tabs, STX/ETX, whitespace-only lines, leading/trailing blank lines), stated for the step list regenerated from the source; unit correspondence for tab lengths 0-8',
     'PARTIAL: the normalisation theorems are full; the lift "the rest of convert reads only the normalised text" is by construction of the pipeline model and end-to-end correspondence. F-C09-1 (whitespace-only first line) was repaired (fix: commit a0e7e3c); the first-line theorems are now unconditional.')
 add('C10', ['C10', 'C10b', 'C10c', 'C10X', 'C10XPost', 'C10XTree', 'C10XToc', 'C10XTocAttr', 'C10XLate', 'C10XRaw', 'C10XC', 'C10XBlock', 'C10XCAll', 'C10XFn', 'C10XFnLeak', 'C10XAll', 'C10XFenceBlock', 'C10XCAllF', 'C10XAllAmp', 'C10XCAllAmp', 'C09'], PIPE + ['corr.pipelinex'],
